@@ -304,6 +304,12 @@ pub fn run(cfg: &Cfg) -> Report {
             }
         }
     }
+    for (_, s) in gen::structured_2d_sets().into_iter().chain(gen::structured_3d_sets()) {
+        if s.n <= cfg.tier.pick(130, 400) {
+            symbols.push(gen::random_branching(&mut rng0, &s, &[1, 1, 1, 2, 3]));
+            symbols.push(gen::random_branching(&mut rng0, &s, &[1]));
+        }
+    }
     // random larger 2D symbols (7-12 chambers): structure, abelianisation, and the deeper clauses when small enough
     symbols.extend(gen::random_larger_2d_symbols(seed, cfg.tier.pick(2_000, 30_000), cfg.tier.pick(12, 20), &[1, 1, 1, 2, 2, 3, 4, 6]));
     let ctx = par_items(cfg, &symbols, |ctx, k, m| {
